@@ -198,7 +198,8 @@ func (t *HHWheelTimer) convTimeUnit(tm time.Time) int64 {
 
 func (t *HHWheelTimer) nextID() int {
 	var newId = t.nextId + 1
-	for i := 0; i < 1e4; i++ {
+	// at most len(refer) candidates can be in use: one more probe always finds a free id
+	for i := 0; i <= len(t.refer); i++ {
 		if newId <= 0 {
 			newId = 1
 		}
